@@ -49,7 +49,7 @@ PROPS = {
                "on the same query (superset) and inverse_continuing_5dof; dense random-walk trajectories of 200 steps where each "
                "call's previous is the preceding first answer; Frame::forward_transformed (ordered by closeness to the given previous joints). "
                "non-trivial = at least one solution returned"),
-    "C02": dict(cfg(3000, 300000, ["C02.", "C06.origin"],
+    "C02": dict(cfg(3000, 300000, ["C02.", "C06.origin", "C06.reachable_nonempty"],
                "robot zoo x random joint vectors kept away from wrist/elbow/shoulder singularities by margins {1e-3,1e-2,1e-1} on "
                "|sin theta5|, |sin(theta3+psi3)| and |cx1| (computed by the generator and re-checked by the driver's oracle); for "
                "each: answers of inverse(forward(q)) and the size of the answer set of the pose of every returned solution; every third "
